@@ -907,7 +907,18 @@ func (e *Engine) confirmPost(res *FuncResult, g *Goal, w *Witness, out string, o
 	}
 	q := res.Ctx.QueryExtra(g, pins, nil)
 	r, _ := race(q, o.Workdir, g.Name+"_confirm", o.Timeout, false)
-	return r.Status == "sat", "pinned re-check: " + r.Status
+	if r.Status != "sat" {
+		return false, "pinned re-check (inputs and observed outputs fixed, clause negated): " + r.Status
+	}
+	// the observation must decide the clause: with the same pins the clause itself must be unsatisfiable
+	pos := *g
+	pos.ExpectSat = true
+	q2 := res.Ctx.QueryExtra(&pos, pins, nil)
+	r2, _ := race(q2, o.Workdir, g.Name+"_confirm2", o.Timeout, false)
+	if r2.Status == "unsat" {
+		return true, "pinned re-check: clause is false on the observed execution (negation sat, clause unsat)"
+	}
+	return false, "pinned re-check: the observed execution does not decide the clause (" + r2.Status + ")"
 }
 
 func encObserved(enc string, sort string) (string, bool) {
